@@ -12,6 +12,7 @@ import (
 	"pgregory.net/rapid"
 
 	"qrynverif/evid"
+	"qrynverif/refeval"
 )
 
 type poolEntry struct {
@@ -65,7 +66,7 @@ func predRetranslate(c retranslateCase, o *evid.Obs) error {
 	}
 	first := map[int]*outcome{}
 	times := map[int]int{}
-	interleaved := false
+	interleaved, crossChecked := false, false
 	last := -1
 	for si, idx := range c.Steps {
 		if idx < 0 || idx >= len(c.Pool) {
@@ -106,6 +107,39 @@ func predRetranslate(c retranslateCase, o *evid.Obs) error {
 		}
 		last = idx
 	}
+	// cross-process reference: the first in-process translation of a sampled entry must equal
+	// what a fresh process renders for it
+	for idx := 0; idx < len(c.Pool); idx++ {
+		o1, ok := first[idx]
+		if !ok {
+			continue
+		}
+		e := c.Pool[idx]
+		key := requestKey(e)
+		if !o.Witness && !sampled(key, sampleRate()) {
+			continue
+		}
+		ref, ok := freshProcessReference(e)
+		if !ok {
+			o.Tag("fresh-process-unavailable")
+			continue
+		}
+		o.Tag("fresh-process-checked")
+		crossChecked = true
+		if ref.Err != o1.err {
+			return fmt.Errorf("query %q: translated in this process (step %d) it ends with %q, in a fresh process with %q", e.Q.Text(), o1.step, o1.err, ref.Err)
+		}
+		if i, same := sameStmts(ref.Stmts, o1.stmts); !same {
+			a, b := "", ""
+			if i < len(ref.Stmts) {
+				a = ref.Stmts[i]
+			}
+			if i < len(o1.stmts) {
+				b = o1.stmts[i]
+			}
+			return fmt.Errorf("query %q translates differently in this process than in a fresh process that translates only this query (statement %d of %d/%d): earlier translations changed process-wide planner state\nfresh process: %s\nthis process (step %d): %s", e.Q.Text(), i, len(ref.Stmts), len(o1.stmts), clip(a), o1.step, clip(b))
+		}
+	}
 	translated := false
 	for idx, o1 := range first {
 		o.Tag("kind:" + c.Pool[idx].Q.Kind)
@@ -117,9 +151,17 @@ func predRetranslate(c retranslateCase, o *evid.Obs) error {
 			o.Tag("rejected-query")
 		}
 	}
-	if !translated {
+	for _, e := range c.Pool {
+		for _, f := range features(e.Q) {
+			o.Tag("feat:" + f)
+		}
+	}
+	if !translated && !crossChecked {
 		o.Discard("no-query-translated-twice")
 		return nil
+	}
+	if crossChecked {
+		o.NonTrivial()
 	}
 	if interleaved {
 		o.Tag("interleaved")
@@ -129,5 +171,53 @@ func predRetranslate(c retranslateCase, o *evid.Obs) error {
 }
 
 func addRetranslate(r *evid.Run) {
-	evid.Add(r, evid.Prop[retranslateCase]{Name: "retranslate", Quick: 1200, Thorough: 6000, Gen: genRetranslate, Pred: predRetranslate})
+	evid.Add(r, evid.Prop[retranslateCase]{Name: "retranslate", Quick: 1000, Thorough: 6000, Gen: genRetranslate, Pred: predRetranslate})
+}
+
+// features names the planner kinds a query exercises (coverage of the "other queries").
+func features(q querySpec) []string {
+	var out []string
+	switch q.Kind {
+	case "logql":
+		e := q.Log
+		lineFilter, parser := false, false
+		for _, s := range e.Stages {
+			switch s.Kind {
+			case refeval.KLineFilter:
+				lineFilter = true
+			case refeval.KJSON, refeval.KRegexp, refeval.KLogfmt:
+				parser = true
+				out = append(out, "parser:"+s.Kind)
+			case refeval.KUnwrap:
+				out = append(out, "unwrap")
+			case refeval.KLabelFilter, refeval.KDrop, refeval.KLineFormat, refeval.KLabelFormat:
+				out = append(out, s.Kind)
+			}
+		}
+		if !e.IsMetric() {
+			out = append(out, "log-query")
+			break
+		}
+		out = append(out, "range:"+e.RangeFn)
+		// the metrics_15s shortcut needs a plain rate/count_over_time over a multiple of 15 s
+		if e.RangeFn == "bytes_rate" || e.RangeFn == "bytes_over_time" || lineFilter || parser || e.RangeNs()%15e9 != 0 {
+			out = append(out, "range-without-shortcut")
+		}
+		if e.AggGroup != nil || e.RangeGroup != nil {
+			out = append(out, "by-without")
+		}
+		if e.TopFn != "" {
+			out = append(out, "topk")
+		}
+	case "traceql":
+		out = append(out, "traceql")
+		for _, s := range q.Trace.Sels {
+			if s.Agg != nil {
+				out = append(out, "traceql-aggregator")
+			}
+		}
+	case "prof":
+		out = append(out, "prof:"+q.Prof.Fn)
+	}
+	return out
 }
